@@ -62,6 +62,7 @@ type scenario struct {
 	Reconf2 string  `json:"reconf_cfg,omitempty"`
 	Latency int64   `json:"latency,omitempty"`
 	Bound   int     `json:"bound,omitempty"`
+	MatchIdx int    `json:"matchidx,omitempty"` // index of the shape whose url_regex matches the requested URL (the others name other URLs)
 }
 
 type finding struct{ Sig, Desc string }
@@ -411,7 +412,7 @@ func run(sc scenario) (body func(), check func(r *vrt.Result) []finding) {
 		full := pattern(sc.R + sc.N)
 		var active *shape
 		if sc.Match && len(sc.Shapes) > 0 {
-			active = &sc.Shapes[0]
+			active = &sc.Shapes[sc.MatchIdx]
 		}
 		counts := map[string]int64{}
 		if active != nil {
@@ -665,6 +666,18 @@ func scenarios(tier string) []scenario {
 				scenario{Name: "global-bw-throttle", Shapes: []shape{{Regex: matchURL, MaxBW: bw, Throttles: []throttle{{Bytes: "100-", BW: 400}}}}, N: n, Match: true, Conns: 2},
 			)
 		}
+	}
+	// several shapes with disjoint URL patterns: only the one naming the requested URL applies, wherever it stands
+	for _, n := range []int{600, 5000} {
+		other1 := shape{Regex: "http://elsewhere/.*", Closes: []closeAct{{Byte: 10, Count: -1}}, Throttles: []throttle{{Bytes: "0-", BW: 10}}, Halts: []halt{{Byte: 5, Dur: 9000, Count: -1}}}
+		other2 := shape{Regex: "http://example/exampleX+", Closes: []closeAct{{Byte: 20, Count: -1}}}
+		mine := shape{Regex: matchURL, Closes: []closeAct{{Byte: 300, Count: -1}}, Halts: []halt{{Byte: 100, Dur: 2000, Count: -1}}}
+		out = append(out,
+			scenario{Name: "multi-shape", Shapes: []shape{other1, mine}, MatchIdx: 1, N: n, Match: true, Conns: 1},
+			scenario{Name: "multi-shape", Shapes: []shape{mine, other1}, MatchIdx: 0, N: n, Match: true, Conns: 1},
+			scenario{Name: "multi-shape", Shapes: []shape{other1, mine, other2}, MatchIdx: 1, N: n, Match: true, Conns: 2},
+			scenario{Name: "multi-shape", Shapes: []shape{other1, other2}, N: n, Match: false, Conns: 1},
+		)
 	}
 	// counts across connections
 	for _, cnt := range []int64{1, 2, -1} {
